@@ -268,24 +268,19 @@ Example analysis_example :
   = serial luma uv 2 3 [0; 0; 0; 0; 0; 0].
 Proof. vm_compute. reflexivity. Qed.
 
-(** The Go text of the per-macroblock loop body that [mb_step] / [mix] / [write_alpha]
-    transcribe (normalised as tools/gosrc2v/analysis.go does: LUMA / UV for the wrapper
-    calls, ACC for the accumulator); compared with the regenerated text of BOTH loops. *)
+(** Source tie (Properties/C12.v, over Gen/Analysis.v).  What is required of the source is
+    relative, not a transcription: the per-macroblock loop body of the worker goroutines and
+    that of computeAlphasSerial are the SAME code once the wrapper calls (LUMA / UV), the
+    accumulator (ACC) and the names of locals (L0, L1, ...) are normalised and hook lines
+    dropped — so [mix] may be any function, as it is in the theorems above — and each
+    serial / worker wrapper pair returns the same kernel on the same leading arguments, the
+    worker taking all scratch from its own parameter, never from the shared encoder. *)
 From Coq Require Import String.
-Definition modelled_body : String.string :=
-"idx := mbY*enc.mbW + mbX
-lumaAlpha := LUMA(mbX, mbY)
-uvAlpha := UV(mbX, mbY)
-mixed := (3*lumaAlpha + uvAlpha + 2) >> 2
-mixed = maxAlpha - mixed
-if mixed < 0 {
-	mixed = 0
-}
-if mixed > maxAlpha {
-	mixed = maxAlpha
-}
-alphas[idx] = mixed
-enc.mbInfo[idx].Alpha = mixed
-ACC += uvAlpha
-"%string.
-
+Fixpoint wrappers_ok (l : list (string * string * string * string * string)) : bool :=
+  match l with
+  | [] => true
+  | (r1, _, k1, a1, _) :: (r2, _, k2, a2, c2) :: tl =>
+      String.eqb r1 "serial" && String.eqb r2 "worker" && String.eqb k1 k2 && String.eqb a1 a2 &&
+      String.eqb c2 "own-only" && wrappers_ok tl
+  | _ => false
+  end.
